@@ -62,7 +62,7 @@ PROPS["C02"] = {
             P("data/builder", "VerifEstimateDirSize"),
             P("data/builder", "VerifAutoShardThreshold", must_reach=("end", "plain", "sharded")),
             P("test", "VerifShardedDir", lg=3, entries=2, maxdepth=2),
-            P("test", "VerifPlainDirMap", entries=3),
+            P("test", "VerifPlainDirMap", entries=2),
             P("test", "VerifHamtReaderWellFormed", must_reach=("end", "member", "non-member", "iterate")),
         ],
         "thorough": [
@@ -80,7 +80,7 @@ PROPS["C02"] = {
             P("test", "VerifShardedDir", lg=3, entries=2, maxdepth=2, small=0),
             P("data/builder", "VerifBuilderDeepChain", must_reach=("end", "too-deep", "deep-ok")),
                      P("hamt", "VerifReaderDeepChain", must_reach=("end", "too-deep", "deep-ok")),
-            P("test", "VerifPlainDirMap", entries=4),
+            P("test", "VerifPlainDirMap", entries=3),
             P("test", "VerifHamtReaderWellFormed", must_reach=("end", "member", "non-member", "iterate")),
         ],
     },
@@ -256,8 +256,9 @@ PROPS["C11"] = {
         "quick": [P("test", "VerifFileStructure", w=2, k=2, maxn=5), P("test", "VerifFileStructure", w=3, k=1, maxn=10),
                   P("test", "VerifFileStructure", w=2, k=1, maxn=4, distinct=0),
                   P("test", "VerifShardedDir", lg=3, entries=2, maxdepth=2),
+                  P("test", "VerifPlainDirMap", entries=2),
                   P("test", "VerifDirSizes", must_reach=("end", "symlink", "plain"))],
-        "thorough": [P("test", "VerifFileStructure", w=2, k=2, maxn=17), P("test", "VerifFileStructure", w=3, k=1, maxn=28),
+        "thorough": [P("test", "VerifPlainDirMap", entries=3), P("test", "VerifFileStructure", w=2, k=2, maxn=17), P("test", "VerifFileStructure", w=3, k=1, maxn=28),
                      P("test", "VerifFileStructure", w=2, k=1, maxn=5, distinct=0),
                      P("test", "VerifShardedDir", lg=3, entries=3, maxdepth=2),
                      P("test", "VerifShardedDir", lg=3, entries=2, maxdepth=2, sizebits=40, small=1, fixedbuckets=1),
